@@ -75,7 +75,7 @@ func verifPoint(point, path string) {
 	verifState.mu.Lock()
 	defer verifState.mu.Unlock()
 	if verifState.sched != nil && !verifState.gave {
-		me := point + " " + path
+		me := strings.TrimSpace(point + " " + path)
 		deadline := time.Now().Add(3 * time.Second)
 		for len(verifState.sched) > 0 && verifState.sched[0] != me && !verifState.gave {
 			if time.Now().After(deadline) {
